@@ -3,10 +3,12 @@
    fee on cancel/abort; Σ(part payout + part stake) to a winner; nothing to a loser; the bet fee to the market creator);
    over histories: a settled bet is never touched again and the terms of a bet (id, creator, amount, fee, outcome, odds,
    backing parts) never change (C03_settled_final, C03_terms_fixed), together with C08_indexes (exactly once in the
-   settled index).  That Σ part payouts equals the integer part of stake x (odds - 1) for every split of the bet over
-   the queue, and non-negativity of parts, are decided per run by the accounting monitors + kernel stream. *)
+   settled index).  Since the repair of D3 (e3645c4) also: no backing part is negative and the stake taken never exceeds the requested stake
+   (C03_parts_nonneg, C03_within_requested), for every split of the bet over the queue; the histories that exhibited
+   D3 on the real code are kept as regression examples (Witness/D3w.v, corpus/C03).  That Σ part payouts equals the integer
+   part of stake x (odds - 1) is decided per run by the accounting monitors + kernel stream. *)
 From Coq Require Import ZArith Bool List.
-From Sge Require Import Lib.Dec Model.Types Model.Orderbook Model.Mint Model.Chain Proofs.WagerLoop Proofs.Inversion Proofs.Custody Proofs.Mono Witness.D3w.
+From Sge Require Import Lib.Dec Model.Types Model.Orderbook Model.Mint Model.Chain Proofs.WagerLoop Proofs.Inversion Proofs.Custody Proofs.Mono Proofs.WagerBounds Witness.D3w.
 Import ListNotations.
 Open Scope Z_scope.
 
@@ -59,26 +61,34 @@ Theorem C03_terms_fixed : forall bk supply P vault MP t0 sw sd,
 Proof. exact bet_terms_are_fixed. Qed.
 Print Assumptions C03_terms_fixed.
 
-(* ---- the clauses "no backing part is negative" and "the stake never exceeds the requested stake" are FALSE of the
-   faithful model (known finding D3: bet_amount_int, transcribing CalculateBetAmountInt, feeds its own carry back
-   twice).  Both witnesses are replayed on the real app on every run (corpus/C03/d3_*.txt). *)
-Definition has_negative_part (s : chain) : bool :=
-  existsb (fun e => existsb (fun b => existsb (fun f => f_stake f <? 0) (b_parts b)) (ms_bets (snd e))) (c_ms s).
-Theorem C03_nonneg_refuted : exists s0 ops,
-  forallb valid_opb ops = true /\ c_halted (run s0 ops) = false /\ has_negative_part (run s0 ops) = true.
-Proof. exists d3neg_init, d3neg_ops. vm_compute. repeat split; reflexivity. Qed.
-Print Assumptions C03_nonneg_refuted.
 
-(* a wager of 3 with fee 1 (requested stake 2) at odds 3.0 against liquidity 1, 1, 2 is charged a stake of 3 *)
+(* no backing part is negative (stake and promised payout), and the stakes add up to at most the requested stake, for
+   every book, queue, odds and liquidity split *)
+Theorem C03_parts_nonneg : forall b A betamt profit bettor fee b' parts effs,
+  process_wager b A betamt profit bettor fee = Some (b', parts, effs) -> 0 <= betamt -> 0 <= profit ->
+  Forall part_nonneg parts /\ 0 <= zsum (map f_stake parts) <= betamt.
+Proof. exact process_wager_bounds. Qed.
+Print Assumptions C03_parts_nonneg.
+
+(* the stored bet of a successful wager: parts non-negative, 0 <= recorded stake <= requested amount - fee.
+   Hypothesis: the validated constraint fee <= minimum amount (x/bet Params.Validate since f805ade) *)
+Theorem C03_within_requested : forall s sg u a sm so ov mu al s',
+  wager_core s sg u a sm so ov mu al = Some s' -> pr_bet_fee (c_prm s) <= pr_bet_min (c_prm s) ->
+  exists x x' b,
+    get_ms s sm = Some x /\ get_ms s' sm = Some x' /\ ms_bets x' = ms_bets x ++ [b] /\ b_uid b = u /\
+    Forall part_nonneg (b_parts b) /\ 0 <= b_amount b <= a - pr_bet_fee (c_prm s).
+Proof. exact wager_core_bounds. Qed.
+Print Assumptions C03_within_requested.
+
+(* regression: the two histories that exhibited D3 on the real code (negative part -> EndBlock panic; stake 3 charged for a
+   requested stake of 2) now run without a negative part, without a halt, within the requested stake *)
+Definition has_negative_part (s : chain) : bool :=
+  existsb (fun e => existsb (fun b => existsb (fun f => (f_stake f <? 0) || (f_pay f <? 0)) (b_parts b)) (ms_bets (snd e))) (c_ms s).
 Definition stake_above_requested (s : chain) (uid requested : Z) : bool :=
   existsb (fun e => existsb (fun b => (b_uid b =? uid) && (requested - b_fee b <? b_amount b)) (ms_bets (snd e))) (c_ms s).
-Theorem C03_requested_refuted : exists s0 ops,
-  forallb valid_opb ops = true /\ c_halted (run s0 ops) = false /\
-  In (OWager 2 {| tk_signer := 0; tk_exp := 1700009999 |} 50 3 7 0 3000000000000000000 1000000000000000000
-        [(0, 1000000000000000000); (1, 1000000000000000000)] {| ky_ignore := true; ky_approved := false; ky_id := -1 |} 1) ops /\
-  stake_above_requested (run s0 ops) 50 3 = true.
-Proof.
-  exists d3over_init, d3over_ops. split; [vm_compute; reflexivity|]. split; [vm_compute; reflexivity|].
-  split; [|vm_compute; reflexivity]. unfold d3over_ops. simpl. tauto.
-Qed.
-Print Assumptions C03_requested_refuted.
+Example C03_regression_D3 :
+  c_halted (run d3neg_init d3neg_ops) = false /\ has_negative_part (run d3neg_init d3neg_ops) = false /\
+  c_betcnt (run d3neg_init d3neg_ops) = 2 /\ c_bqueue (run d3neg_init d3neg_ops) = [] /\
+  c_halted (run d3over_init d3over_ops) = false /\ c_betcnt (run d3over_init d3over_ops) = 1 /\
+  stake_above_requested (run d3over_init d3over_ops) 50 3 = false.
+Proof. vm_compute. repeat split; reflexivity. Qed.
